@@ -63,13 +63,13 @@ class Probe:
 
 
 def origin_port(pid):
-    return ls.port_base_for_check(pid, 0, slot=1) + 1
+    return ls.port_base_for_check(pid, 0, slot=1) + 9
 
 
 def squid_port_base(pid, shard):
-    """shard -1 = the parent (counting / template runs)."""
+    """shard -1, -2 = preparation runs (template / counting) in the spare block: 10 ports each."""
     if shard < 0:
-        return ls.port_base_for_check(pid, 0, slot=1)
+        return ls.port_base_for_check(pid, 0, slot=1) + 10 * (-shard - 1)
     return ls.port_base_for_check(pid, shard)
 
 
@@ -83,7 +83,7 @@ class CacheWorld:
         self.store_kind = store
         self.cache_dir, self.conf = STORES[store]
         self.template = template
-        self.origin_ip = '127.0.0.%d' % (2 + (shard if shard >= 0 else 16))
+        self.origin_ip = '127.0.0.%d' % (2 + (shard if shard >= 0 else 15 - shard))
         self.origin_port = origin_port(ctx.pid)
         self.origin = ls.Listener(self.origin_port, host=self.origin_ip)
         self.w = None
